@@ -308,7 +308,7 @@ def generate(seed, tier, index=0, batch_seed=None):
         "p_interrupt": rng.choice([0.25, 0.5]),
     }
     sched = {"policy": "seeded", "seed": rng.getrandbits(32), "deliver_bias": rng.choice([0.1, 1.0, 1000.0]),
-             "eager": rng.choice([0.0, 0.5, 1.0])}
+             "eager": rng.choice([0.0, 0.5, 1.0]), "timeout_p": rng.choice([0.0, 0.5])}
     if index % 5 in (1, 3):
         # interrupt sweep: two runs in five walk through the catalogue in a fixed rotation and interrupt three templates each at a
         # seeded position, so that every template is interrupted about equally often in every batch (uniformly random fault
@@ -648,6 +648,8 @@ def execute(trace, ctx=None):
     stats["pools"] = summ["pools"]
     stats["sched_events"] = summ["events"]
     stats["out_of_order_delivery"] = summ["out_of_order_delivery"]
+    stats["seam_timed_wait_expired"] = summ.get("timed_wait_expired", 0)
+    stats["seam_sleep_calls"] = summ.get("sleep_seam_calls", 0)
     return {
         "violation": violation,
         "digest": digest([log, CTL.decisions]),
